@@ -973,7 +973,7 @@ theorem core_completeWorkflow (c : Cfg) (s : State) (r : Row) (s' : State) (k : 
       rw [h.running]; rcases hst with rfl | rfl <;> decide
     have heffs : (handle c s { r with attempts := r.attempts + 1 }).1.flatten =
         [.setWf st, .mark r.id] ++ (if st != .succeeded then (List.range c.n).filter (fun i => (s.stage i).status == .running) else []).map (fun i => Eff.push (.cancelStage i)) := by
-      simp [handle, hm, hCompleteWorkflow, hnc, hfs, hleg]
+      simp [handle, hm, hCompleteWorkflow, hnc, hfs, hleg, h.nc]
     rw [hf.core.2.1, heffs]
     have : ∀ (l : List Eff) (s0 : State), noSetWf l → (applyTxn s0 (.setWf st :: l)).wfStatus = st := by
       intro l s0 hl
